@@ -361,6 +361,11 @@ pub fn run_c20(case: &Case) -> Outcome {
             pumpkin_solver::verif::Event::Decision { predicate, decision_level, .. } => trace.push_str(&format!("|d{decision_level}:{predicate:?}")),
             pumpkin_solver::verif::Event::Learned { nogood, backjump_level, .. } => trace.push_str(&format!("|l{backjump_level}:{nogood:?}")),
             pumpkin_solver::verif::Event::Restart => trace.push_str("|r"),
+            // explanations as given (order included): their order steers conflict analysis and is
+            // what a proof log prints
+            pumpkin_solver::verif::Event::Propagation { predicate, reason, .. } => trace.push_str(&format!("|p:{predicate:?}<-{reason:?}")),
+            pumpkin_solver::verif::Event::Conflict { nogood, .. } => trace.push_str(&format!("|c:{nogood:?}")),
+            pumpkin_solver::verif::Event::AnalysisReason { predicate, reason, .. } => trace.push_str(&format!("|a:{predicate:?}<-{reason:?}")),
             _ => {}
         }
     }
